@@ -127,7 +127,9 @@ def html_to_nodes(
         else:
             children = child.strip().children
             title = (
-                "".join(child.render() for child in children.pop(0))
+                "".join(
+                    child.render(source_end_tags=True) for child in children.pop(0)
+                )
                 if children
                 and children[0].name in ("div", "p")
                 and (
@@ -152,7 +154,11 @@ def html_to_nodes(
             content = (
                 options
                 + ("\n\n" if options else "")
-                + "".join(child.render() for child in new_children).lstrip()
+                # end tags are only rendered if present in the source, since here
+                # "tags" can also be Markdown, e.g. `<b>` or <name@example.com>
+                + "".join(
+                    child.render(source_end_tags=True) for child in new_children
+                ).lstrip()
             )
 
             nodes_list.extend(
